@@ -163,10 +163,10 @@ func newTrustDB() sqlite.DB {
 // stored lists the TRCs in the store: ISD 1 / base 1 as [serial, content] pairs, everything else counted.
 func stored(ctx context.Context, u *universe, d trust.DB, maxSerial int) ([][]any, int, int) {
 	own, foreign := [][]any{}, 0
-	for isd := 1; isd <= 3; isd++ {
+	for isd := 1; isd <= 3; isd++ { // abstract ISD numbers
 		for base := 1; base <= 3; base++ {
 			for s := base; s <= maxSerial+2; s++ {
-				t, err := d.SignedTRC(ctx, cppki.TRCID{ISD: addr.ISD(isd), Base: scrypto.Version(base), Serial: scrypto.Version(s)})
+				t, err := d.SignedTRC(ctx, cppki.TRCID{ISD: pki.ISD(isd), Base: scrypto.Version(base), Serial: scrypto.Version(s)})
 				if err != nil {
 					vt.Fatal("db read: %v", err)
 				}
@@ -182,7 +182,7 @@ func stored(ctx context.Context, u *universe, d trust.DB, maxSerial int) ([][]an
 		}
 	}
 	latest := 0
-	t, err := d.SignedTRC(ctx, cppki.TRCID{ISD: 1, Base: scrypto.LatestVer, Serial: scrypto.LatestVer})
+	t, err := d.SignedTRC(ctx, cppki.TRCID{ISD: pki.ISD(1), Base: scrypto.LatestVer, Serial: scrypto.LatestVer})
 	if err != nil {
 		vt.Fatal("db read: %v", err)
 	}
@@ -248,7 +248,7 @@ func concurrentHistories(ctx context.Context, w *vt.Writer, u *universe, n int) 
 				defer wg.Done()
 				prov := trust.FetchingProvider{DB: sq, Recurser: trust.LocalOnlyRecurser{}, Fetcher: c.f, Router: fixedRouter{}}
 				<-start
-				err := prov.NotifyTRC(ctx, cppki.TRCID{ISD: 1, Base: 1, Serial: scrypto.Version(c.serial)})
+				err := prov.NotifyTRC(ctx, cppki.TRCID{ISD: pki.ISD(1), Base: 1, Serial: scrypto.Version(c.serial)})
 				c.errnil = b2i(err == nil)
 			}(c)
 		}
